@@ -30,6 +30,10 @@ InitDec == [nh |-> 0, live |-> FALSE, inited |-> FALSE, B |-> <<0, 0>>, hs |-> 0
             mm |-> DecRestart(<<0, 0>>, 0), pure |-> FALSE,
             prev |-> -1, prevclean |-> FALSE, lastk |-> -1, chunkclean |-> FALSE, gpforced |-> FALSE]
 
+\* the buffer is allocated for full rate (pcm_storage = blocksizes[1] samples per channel) whatever the half-rate flag is or was:
+\* that, not the two-half ring of the current flag, is the bound that memory safety needs (the flag may be toggled in mid-stream)
+StoreOK(B, d) == d.ret = -1 \/ (0 <= d.ret /\ d.ret <= d.cur /\ d.cur <= B[2])
+ActualB(s, e) == IF "abs1" \in DOMAIN e /\ e.abs1 > 0 THEN <<e.abs0, e.abs1>> ELSE s.B
 Observed(e, hs) == [lW |-> e.dlW, W |-> e.dW, centerW |-> e.dcw, cur |-> e.dcur, ret |-> e.dret, gp |-> e.dgp, seq |-> e.dseq, sc |-> e.dsc, eof |-> e.deof, hs |-> hs]
 StateMatches(d, e) == d.lW = e.dlW /\ d.W = e.dW /\ d.centerW = e.dcw /\ d.cur = e.dcur /\ d.ret = e.dret /\ d.gp = e.dgp /\ d.seq = e.dseq /\ d.sc = e.dsc /\ d.eof = e.deof
 
@@ -69,7 +73,7 @@ ChkSynthesis(s, e, trk) ==
      (IF ok /\ e.rs = 0 /\ (e.rb = 0) # DecBlockinAllowed(s.m) THEN {"BlockinRefusedUntilRead"} ELSE {}) \cup
      (IF ok /\ e.rs = 0 /\ e.rb = 0 /\ e.W \in {0, 1} /\ e.avail # DecAvail(m1) THEN {"SamplesPerPacket"} ELSE {}) \cup
      (IF ok /\ s.pure /\ e.rs = 0 /\ e.rb = 0 /\ e.W \in {0, 1} /\ DecBlockinAllowed(s.mm) /\ e.avail # DecAvail(DecBlockin(s.B, s.mm, e.W, e.no, e.gp, e.eos = 1, ~trk)) THEN {"SamplesPerPacket"} ELSE {}) \cup
-     (IF e.rs = 0 /\ e.rb = 0 /\ ~DecBufOK(s.B, Observed(e, e.hsp)) THEN {"BufferInsideRing"} ELSE {}) \cup
+     (IF e.rs = 0 /\ e.rb = 0 /\ ~StoreOK(ActualB(s, e), Observed(e, e.hsp)) THEN {"BufferInsideRing"} ELSE {}) \cup
      (IF e.rs = 0 /\ e.rb = 0 /\ e.avail < 0 THEN {"PendingNeverNegative"} ELSE {}) \cup
      \* packets written by the model codeword by codeword: the decoder consumes exactly the bits the model wrote (it parsed the same codewords)
      (IF ok /\ e.mut = 0 /\ e.rs = 0 /\ "xused" \in DOMAIN e /\ e.xused >= 0 /\ e.used # e.xused THEN {"PacketBitsConsumed"} ELSE {})
@@ -113,6 +117,8 @@ NxtRestart(s, e) == [s EXCEPT !.m = Observed(e, e.hsp), !.mm = [DecRestart(s.B, 
                              !.prev = -1, !.prevclean = FALSE, !.chunkclean = FALSE, !.lastk = -1, !.gpforced = FALSE]
 
 ChkLapOut(s, e) ==
-  (IF e.n < 0 THEN {"LapOutNonNegative"} ELSE {}) \cup
-  (IF ~DecBufOK(s.B, Observed(e, e.hsp)) THEN {"BufferInsideRing"} ELSE {})
+  \* (after a half-rate toggle on a running decoder the buffer bookkeeping and the flag disagree until the next restart: the count is
+  \*  then meaningless, possibly negative, which the caller sees as a failure; only indices inside the buffer are demanded)
+  (IF e.n < 0 /\ ~s.hsdirty THEN {"LapOutNonNegative"} ELSE {}) \cup
+  (IF ~StoreOK(ActualB(s, e), Observed(e, e.hsp)) THEN {"BufferInsideRing"} ELSE {})
 =============================================================================
